@@ -89,7 +89,7 @@ theorem endOf_modLast_le {l : List Seg} {f : Seg → Seg}
     (hf : ∀ g, l.getLast? = some g → (f g).stop ≤ g.stop) : endOf (modLast l f) ≤ endOf l := by
   rcases snoc_cases l with rfl | ⟨l', b, rfl⟩
   · exact Nat.le_refl _
-  · rw [modLast_snoc, endOf_snoc, endOf_snoc]; exact hf b List.getLast?_concat
+  · rw [modLast_concat, endOf_snoc, endOf_snoc]; exact hf b List.getLast?_concat
 
 theorem modLastSeg_pre {c : Ctx} (h : GeoPre c) {f : Seg → Seg}
     (hf : ∀ g, c.comp.segs.getLast? = some g → SegGeo g → SegGeo (f g) ∧ (f g).start = g.start) :
